@@ -224,6 +224,12 @@ impl<C: Cfg> World<C> {
 
     /// 2^k pushes: the number of capacity changes must be logarithmic.
     pub fn amortisation_case(&mut self, fl: Flavour, k: u32, erased: bool, prefix: u32, tr: &mut String) {
+        // at most 4 MiB of elements: whatever the growth policy, the storage stays far below the size
+        // from which the instrumented allocator serves requests virtually (VIRT_LIMIT)
+        let mut k = k;
+        while k > 3 && (1usize << k).saturating_mul(C::T::SIZE) > (4 << 20) {
+            k -= 1;
+        }
         let n = 1usize << k;
         let _ = write!(tr, "prefix route {}; {} x {}push: count capacity changes", prefix % 5, n, if erased { "erased " } else { "typed " });
         // small id spaces cannot hold that many instances
